@@ -1,7 +1,7 @@
 (* C12 — A failed or reverted call frame leaves no trace.
    Property theorems only: each is closed by [exact <lemma>] (or a vm_compute witness for the
    refuted ones) and followed by [Print Assumptions].
-   Model: Model/C12.v   Lemmas: Proofs/C12.v, Proofs/C12_Evm.v, Proofs/C12_Inventory.v, Proofs/C12_Layers.v   Generated: Generated/C12Journal.v
+   Model: Model/C12.v   Lemmas: Proofs/C12.v, Proofs/C12_Evm.v, Proofs/C12_Inventory.v, Proofs/C12_Layers.v, Proofs/C12_Fin.v (model Model/C12_Fin.v)   Generated: Generated/C12Journal.v
 
    Reading guide.  [step fx x o] is one call on the StateDB (mutator, Snapshot, RevertToSnapshot);
    [fx = false] is the code of /repo, [fx = true] the proposed repair of StateDB.Suicide.
@@ -12,6 +12,8 @@
 From Coq Require Import String.
 From Coq Require Import List NArith ZArith Bool Lia.
 From GQ Require Import Lib.Key Lib.SMap Lib.C12_Laws Model.C12 Proofs.C12 Proofs.C12_Evm Proofs.C12_Inventory Proofs.C12_Layers Generated.C12Journal.
+From GQ Require Import Model.C12_Fin Proofs.C12_Fin.
+From GQ Require Model.C12_All.   (* case type of the correspondence check: built with this cone *)
 Import ListNotations.
 
 (* Every mutator only appends to the journal, and reverting what it appended gives back exactly
@@ -437,4 +439,97 @@ Example slot_across_transactions_nonvacuous :
   l_vis (l_exec true (LCall [LSet 9%N; LCall [LSet 5%N] true] true) s) = 0%N /\
   erase_block [([LSet 5%N], false); ([LCall [LSet 0%N] false; LCall [LSet 9%N] true], true)]
     = [([LSet 5%N], false); ([LCall [LSet 0%N] false], true)].
+Proof. vm_compute. repeat split; reflexivity. Qed.
+
+
+(* ---------- one account over the transactions of a block: Finalize / IntermediateRoot / Commit and the
+   snapshot-side bookkeeping (Model/C12_Fin.v) ----------
+   [fa_op snap o] = CreateAccount / AddBalance / SetNonce / SetCode / Suicide on the account (createObject with
+   createObjectChange or resetObjectChange{prev, prevdestruct}, getStateObject hiding an object deleted by an
+   earlier transaction); [snap] = the StateDB reads through a snapshot layer (snapDestructs / snapAccounts are
+   kept); [fa_finalize] / [fa_root] = StateDB.Finalize(true) / IntermediateRoot(true); [fa_commit] = what
+   Commit hands to the database and to snaps.Update for the address.  A state is object, snapDestructs and
+   snapAccounts membership, journal, journal.dirties, stateObjectsPending / stateObjectsDirty membership,
+   account trie entry. *)
+
+(* Every mutator only appends journal entries; undoing them gives back EXACTLY the state it started from,
+   all eight components. *)
+Theorem account_mutator_is_undone_by_its_entries : forall snap o s, FInv s ->
+  (exists k, length (fa_jr (fa_op snap o s)) = k + length (fa_jr s) /\ fa_pop snap k (fa_op snap o s) = s)
+  /\ FInv (fa_op snap o s).
+Proof. exact aext_op. Qed.
+Print Assumptions account_mutator_is_undone_by_its_entries.
+
+(* Whatever the earlier transactions and the earlier frames of this transaction did, the state satisfies
+   the invariants the next theorems assume: an address without object is not in stateObjectsDirty (so the
+   delete in createObjectChange.revert is a no-op), and journal.dirties[addr] is the number of pending
+   entries whose dirtied() is not nil (no leak, no underflow, through every revert and every boundary). *)
+Theorem account_invariants_reachable : forall snap base b pre,
+  FInv (fa_frames snap pre (fa_block snap b (fa_fresh base)))
+  /\ DInv (fa_frames snap pre (fa_block snap b (fa_fresh base))).
+Proof.
+  intros snap base b pre. split.
+  - apply aext_frames. apply FInv_block. apply FInv_fresh.
+  - apply DInv_frames. apply DInv_block. apply DInv_fresh.
+Qed.
+Print Assumptions account_invariants_reachable.
+
+(* The property for the account clauses over whole blocks: a frame that fails - in any transaction, after
+   any frames, whatever its sub-frames did (re-creations over a live / deleted / absent account,
+   self-destructs, nested failing and completing frames), with or without a snapshot layer - leaves the
+   object, snapDestructs, snapAccounts, the journal, journal.dirties, the pending / dirty sets and the
+   account trie exactly as at frame entry. *)
+Theorem failed_frame_restores_account_and_snapshot_bookkeeping : forall snap base b pre body,
+  let s := fa_frames snap pre (fa_block snap b (fa_fresh base)) in
+  fa_exec snap (FFCall body true) s = s.
+Proof. intros snap base b pre body s. apply fa_failed. apply account_invariants_reachable. Qed.
+Print Assumptions failed_frame_restores_account_and_snapshot_bookkeeping.
+
+(* Siblings: what the frames that completed before did is exactly what remains. *)
+Theorem account_siblings_untouched : forall snap s pre body, FInv s ->
+  fa_frames snap (pre ++ [FFCall body true]) s = fa_frames snap pre s.
+Proof. intros snap s pre body I. exact (fa_siblings snap pre body s I). Qed.
+Print Assumptions account_siblings_untouched.
+
+(* A revert leaves no trace at the next Commit: a block and the block without its failed frames (nested
+   ones included; [ferase] removes them, see the next theorem) reach the same state after every
+   transaction boundary, and Commit writes the same account entry, the same destruct mark and the same
+   snapshot account entry. *)
+Theorem account_block_equals_block_without_failed_frames : forall snap base b,
+  fa_block snap (ferase_block b) (fa_fresh base) = fa_block snap b (fa_fresh base)
+  /\ fa_commit snap (fa_block snap (ferase_block b) (fa_fresh base)) = fa_commit snap (fa_block snap b (fa_fresh base)).
+Proof.
+  intros snap base b. split; [apply fa_erase_block|apply fa_erase_commit]; apply FInv_fresh.
+Qed.
+Print Assumptions account_block_equals_block_without_failed_frames.
+
+Theorem erased_frames_never_fail : forall f, forallb no_fail (ferase f) = true.
+Proof. exact ferase_no_fail. Qed.
+Print Assumptions erased_frames_never_fail.
+
+(* The snapshot layer only adds bookkeeping: object, journal length, dirties, pending / dirty sets, account
+   trie entry and the account entry written by Commit are the same with and without it, for every block. *)
+Theorem snapshot_layer_does_not_change_account_result : forall b base,
+  fa_obj (fa_block true b (fa_fresh base)) = fa_obj (fa_block false b (fa_fresh base))
+  /\ fa_trie (fa_block true b (fa_fresh base)) = fa_trie (fa_block false b (fa_fresh base))
+  /\ fst (fst (fa_commit true (fa_block true b (fa_fresh base)))) = fst (fst (fa_commit false (fa_block false b (fa_fresh base)))).
+Proof. exact backend_independent. Qed.
+Print Assumptions snapshot_layer_does_not_change_account_result.
+
+(* Non-vacuity, and the two shapes the prevdestruct field exists for.  Parent state: balance 7.
+   (1) transaction 1 self-destructs (Finalize marks the destruct); in transaction 2 a frame re-creates the
+   account, credits it and fails: the object is the deleted one again and the mark is STILL there;
+   (2) no earlier destruct: the failed re-creation's mark is removed again;  (3) the journal of the failed
+   frame held three entries. *)
+Example account_block_nonvacuous :
+  let base := Some (0%N, 7%Z, false) in
+  let s1 := fa_block true [([FFOp FSuicide], false)] (fa_fresh base) in
+  let body := [FFOp FCreate; FFOp (FCredit 4%Z); FFOp (FSetNonce 1%N)] in
+  fa_destruct s1 = true /\ fa_obj s1 = Some (mkO 0 0 false true true)
+  /\ fa_destruct (fa_frames true body s1) = true /\ length (fa_jr (fa_frames true body s1)) = 3
+  /\ fa_exec true (FFCall body true) s1 = s1
+  /\ fa_destruct (fa_frames true body (fa_fresh base)) = true
+  /\ fa_exec true (FFCall body true) (fa_fresh base) = fa_fresh base
+  /\ fa_commit true (fa_block true [([FFOp FSuicide], false); ([FFCall body true; FFOp (FCredit 4%Z)], false)] (fa_fresh base))
+     = (Some (0%N, 4%Z, false), true, true).
 Proof. vm_compute. repeat split; reflexivity. Qed.
